@@ -258,8 +258,7 @@ def eval_case(case, drv):
     if got is None:
         return {"corr_ok": False, "prop_ok": False, "branch": "refused", "detail": {"impl": impl_err, "kinds": kinds}}
     # model
-    import xgcm.padding as xp
-    conn_axes = xp._get_all_connection_axes({"face": fg.fc_arg(tbl)["face"]}, "face")
+    conn_axes = fg.table_axes(tbl)      # the axes the table names (not through a private helper of xgcm)
     pad_axes = [a for a in ("X", "Y") if a in (conn_axes + [case["axis"]])]     # the grid's own axis order (not a set's)
     data4 = fg.canon_faces(da, "xc", "yc")
     R = data4.shape[3]
